@@ -147,12 +147,24 @@ impl<'a, F> Entries<'a, F> {
         entries
     }
 
-    fn stack_left_spine(&mut self, parent_path: &Path, mut current_id: u32) {
+    fn stack_left_spine(&mut self, parent_path: &Path, current_id: u32) {
         let minialloc = self.minialloc.read().unwrap();
-        while current_id != consts::NO_STREAM {
-            self.stack.push((parent_path.to_path_buf(), current_id, true));
-            current_id = minialloc.dir_entry(current_id).left_sibling;
-        }
+        push_left_spine(&mut self.stack, &minialloc, parent_path, current_id);
+    }
+}
+
+/// Pushes `current_id` and its chain of left siblings onto `stack`, using an
+/// already-acquired lock guard (re-acquiring the read lock while a guard is
+/// held can deadlock once a writer is waiting).
+fn push_left_spine<F>(
+    stack: &mut Vec<(PathBuf, u32, bool)>,
+    minialloc: &MiniAllocator<F>,
+    parent_path: &Path,
+    mut current_id: u32,
+) {
+    while current_id != consts::NO_STREAM {
+        stack.push((parent_path.to_path_buf(), current_id, true));
+        current_id = minialloc.dir_entry(current_id).left_sibling;
     }
 }
 
@@ -165,13 +177,23 @@ impl<'a, F> Iterator for Entries<'a, F> {
             let dir_entry = minialloc.dir_entry(stream_id);
             let path = join_path(&parent, dir_entry);
             if visit_siblings {
-                self.stack_left_spine(&parent, dir_entry.right_sibling);
+                push_left_spine(
+                    &mut self.stack,
+                    &minialloc,
+                    &parent,
+                    dir_entry.right_sibling,
+                );
             }
             if self.order == EntriesOrder::Preorder
                 && dir_entry.obj_type != ObjType::Stream
                 && dir_entry.child != consts::NO_STREAM
             {
-                self.stack_left_spine(&path, dir_entry.child);
+                push_left_spine(
+                    &mut self.stack,
+                    &minialloc,
+                    &path,
+                    dir_entry.child,
+                );
             }
             Some(Entry::new(dir_entry, path))
         } else {
